@@ -332,7 +332,7 @@ def decodeDatetimeOdl (g : Grammar) (s : Str) : Except DErr Val :=
         match v with
         | .time a b c e _ => .ok (.time a b c e (some off))
         | .datetime y mo d a b c e _ => .ok (.datetime y mo d a b c e (some off))
-        | _ => .error .type   -- date.replace(tzinfo=…) / str.replace(tzinfo=…) raise TypeError
+        | _ => .error .value  -- date / str `.replace(tzinfo=…)` raises TypeError, turned into ValueError
 
 /-- `decode_datetime` of each class. -/
 def decodeDatetime (d : Dec) (s : Str) : Except DErr Val :=
